@@ -27,6 +27,10 @@ func genPar(rng *rand.Rand) parScen {
 	s := parScen{Variant: []string{"Do", "DoContext", "Map", "MapContext"}[rng.Intn(4)], Fail: map[int]bool{}}
 	s.N = []int{0, 1, 2, 3, 5, 9}[rng.Intn(6)]
 	s.P = []int{-1, 0, 1, 2, 3, 12}[rng.Intn(6)]
+	if rng.Intn(7) == 0 { // n >> parallelism (work handed out in more than a few rounds)
+		s.N = []int{33, 64, 65, 100, 129}[rng.Intn(5)]
+		s.P = []int{1, 2, 3}[rng.Intn(3)]
+	}
 	if s.Variant == "DoContext" || s.Variant == "MapContext" {
 		for i := 0; i < s.N; i++ {
 			if rng.Intn(5) == 0 {
